@@ -18,6 +18,8 @@
  *                 00 <bytes> a line (CRLF is appended here)     01 a line ended by a bare LF (net_read: EINVAL)
  *                 02 an over-long line (net_read: E2BIG)       03 read() fails with EIO
  *                 04 poll() times out                          05 connection closed (also when the script is exhausted)
+ *                 06 1500 octets without CRLF, then the connection is closed (nothing of the script follows)
+ *                 07 1500 octets without CRLF, then the server stays silent for good
  * result: EXIT <code> S <status stream, hex> N <bytes written to the socket, hex>
  */
 #include "hcommon.h"
@@ -166,15 +168,27 @@ static void ev_load(void)
 		c_evlen = 1502; c_evbuf = malloc(c_evlen); memset(c_evbuf, 'x', c_evlen);
 		memcpy(c_evbuf, "250 ", 4); c_evbuf[c_evlen - 2] = '\r'; c_evbuf[c_evlen - 1] = '\n';
 		break;
+	case 6: case 7:
+		c_evlen = 1500; c_evbuf = malloc(c_evlen); memset(c_evbuf, 'z', c_evlen);
+		memcpy(c_evbuf, "221 ", 4);
+		break;
 	}
 	c_evloaded = 1;
 }
-static void ev_next(void) { c_evpos++; c_evloaded = 0; }
+static int c_silent;		/* after event 07: every poll() for input times out */
+static void ev_next(void)
+{
+	int k = ev_kind();
+	c_evpos++; c_evloaded = 0;
+	if (k == 6) c_nev = c_evpos;			/* closed: read() = 0 from now on */
+	if (k == 7) { c_nev = c_evpos; c_silent = 1; }
+}
 
 static int h_poll(struct pollfd *p, nfds_t n, int t)
 {
 	(void)n; (void)t;
 	if (p->events & POLLOUT) { p->revents = POLLOUT; return 1; }
+	if (c_silent) return 0;
 	if (ev_kind() == 4) { ev_next(); return 0; }
 	p->revents = POLLIN;
 	return 1;
@@ -183,7 +197,7 @@ static ssize_t h_read(int fd, void *buf, size_t n)
 {
 	(void)fd;
 	switch (ev_kind()) {
-	case 0: case 1: case 2: {
+	case 0: case 1: case 2: case 6: case 7: {
 		ev_load();
 		size_t k = c_evlen - c_evoff;
 		if (k > n) k = n;
@@ -203,8 +217,8 @@ static void run_case(int nf, struct field *f)
 	if (nf < 6 || f[0].len != 1 || f[0].p[0] != 0xc4 || f[1].len != 1 || f[5].len != 1 || nf < 6 + f[5].p[0]) { out_str("BADCASE"); return; }
 	int n = f[5].p[0];
 	c_ext = f[1].p[0]; c_rhost = &f[2]; c_msg = &f[4];
-	c_ev = f + 6 + n; c_nev = nf - 6 - n; c_evpos = 0; c_evloaded = 0;
-	for (int i = 0; i < c_nev; i++) if (c_ev[i].len < 1 || c_ev[i].p[0] > 5) { out_str("BADCASE"); return; }
+	c_ev = f + 6 + n; c_nev = nf - 6 - n; c_evpos = 0; c_evloaded = 0; c_silent = 0;
+	for (int i = 0; i < c_nev; i++) if (c_ev[i].len < 1 || c_ev[i].p[0] > 7) { out_str("BADCASE"); return; }
 	slen = nlen = 0;
 	/* program state as at process start */
 	linenlen = 0; linein.len = 0; memset(lineinbuf, 0, sizeof(lineinbuf));
